@@ -19,7 +19,7 @@ package transaction
 // named UUIDs are expanded, and no operation runs before expansion.
 //@ func (*Transaction).Transact
 //@ requires t != nil && t.Database != nil && len(operations) >= 1
-//@ trace ovsdb.ExpandNamedUUIDs
+//@ trace ovsdb.ExpandNamedUUIDs updates.(*ModelUpdates).Merge cache.(*TableCache).ApplyCacheUpdate
 //@ at call ovsdb.ExpandNamedUUIDs requires calls("ovsdb.ExpandNamedUUIDs") == 0
 //@ at call ovsdb.ExpandNamedUUIDs requires forall i: int :: 0 <= i && i < len(operations) && operations[i].Op == "insert" ==> operations[i].UUID != ""
 //@ at call transaction.(*Transaction).Insert requires calls("ovsdb.ExpandNamedUUIDs") == 1
@@ -34,6 +34,10 @@ package transaction
 //@ ensures len(result0) == len(operations) + 1 ==> (forall i: int :: 0 <= i && i < len(operations) ==> (result0[i] != nil && result0[i].Error == ""))
 //@ loop 1 invariant forall j: int :: 0 <= j && j <= rangeindex && operations[j].Op == "insert" ==> operations[j].UUID != ""
 //@ loop 2 invariant len(results) == len(operations) && cap(results) >= len(results) && fresh(results)
+// an operation whose update could not be merged into the transaction's update,
+// or applied to the transaction cache, fails (C02): while the loop goes on, no
+// such call has returned an error
+//@ loop 2 invariant fails("updates.(*ModelUpdates).Merge") == 0 && fails("cache.(*TableCache).ApplyCacheUpdate") == 0
 //@ loop 2 invariant forall j: int :: 0 <= j && j <= rangeindex ==> (results[j] != nil && results[j] != &r && private(results[j]) && results[j].Error == "")
 
 // checkIndexes (C06): when it reports no conflict, EVERY row of EVERY table of
